@@ -29,9 +29,10 @@ def rid(v):
 
 class SliceV:
     """A slice or string: window [off, off+ln) of region rid; cap counts from off."""
-    __slots__ = ("rid", "off", "ln", "cap", "elem", "lv", "isstr")
+    __slots__ = ("rid", "off", "ln", "cap", "elem", "lv", "isstr", "snap")
 
-    def __init__(self, rid_, off, ln, cap, elem, lv=None, isstr=False):
+    def __init__(self, rid_, off, ln, cap, elem, lv=None, isstr=False, snap=None):
+        self.snap = snap  # State whose memory this value reads (set by old(...)); None = current state
         self.rid = rid_
         self.off = off
         self.ln = ln
